@@ -25,6 +25,8 @@ def one(sid, seed):
     meta = json.load(open(os.path.join(sdir, "meta.json"), encoding="utf-8"))
     if meta.get("obsolete"):
         return {"id": sid, "checks": {}, "caught": True, "obsolete": True}
+    if meta.get("outside_statement"):
+        return {"id": sid, "checks": {}, "caught": True, "outside_statement": True}  # kept for the record, nothing to catch
     checks = meta.get("detected_by") or [meta["property"]]
     tmp = f"/tmp/reeval_{sid}"
     shutil.rmtree(tmp, ignore_errors=True)
